@@ -5,6 +5,7 @@ package sm2_test
 
 import (
 	"bytes"
+	"context"
 	crand "crypto/rand"
 	"errors"
 	"fmt"
@@ -43,7 +44,9 @@ type faultyReader struct {
 
 func (f *faultyReader) Read(p []byte) (int, error) {
 	f.reads++
-	if f.reads > 100000 {
+	if f.reads > 2000000+1100*len(f.data) {
+		// more reads than any ReadFull-based consumer of this stream can need under the slowest chunking (1000 empty reads per unit,
+		// or 5 reads per byte): the callee is spinning on a source that has nothing more to give
 		panic("faultyReader: runaway reader loop")
 	}
 	limit := len(f.data)
@@ -208,11 +211,32 @@ func (c19TempErr) Error() string   { return "verif: temporary entropy failure" }
 func (c19TempErr) Temporary() bool { return true }
 func (c19TempErr) Timeout() bool   { return true }
 
+// c19NilPtrErr is an error whose dynamic value is a nil pointer: a non-nil error all the same.
+type c19NilPtrErr struct{}
+
+func (*c19NilPtrErr) Error() string { return "rng failure (nil receiver)" }
+
 var c19Errs = []error{io.EOF, io.ErrUnexpectedEOF, errC19, syscall.EAGAIN, syscall.EINTR,
-	&os.PathError{Op: "read", Path: "/dev/hwrng", Err: syscall.EAGAIN}, fmt.Errorf("rng: %w", c19TempErr{}), os.ErrDeadlineExceeded}
+	&os.PathError{Op: "read", Path: "/dev/hwrng", Err: syscall.EAGAIN}, fmt.Errorf("rng: %w", c19TempErr{}), os.ErrDeadlineExceeded,
+	// errors that LOOK like "no error" to code that inspects them instead of comparing with nil
+	syscall.Errno(0), &os.PathError{Op: "read", Path: "/dev/hwrng", Err: syscall.Errno(0)}, os.NewSyscallError("getrandom", syscall.Errno(0)),
+	errors.New(""), fmt.Errorf("%w", io.EOF), context.Canceled, (*c19NilPtrErr)(nil), syscall.ENOSYS, syscall.EIO}
 
 func c19Chunks(t *rapid.T) []int {
-	switch gen.Pick(t, "chunking", "full", "full", "bytes", "mixed", "zeros") {
+	switch gen.Pick(t, "chunking", "full", "full", "full", "bytes", "bytes", "mixed", "mixed", "zeros", "zeros", "many-empties") {
+	case "many-empties":
+		// an io.Reader may return (0, nil) any number of times (io.ReadFull simply reads again): long runs of empty reads before data
+		switch gen.Pick(t, "empties", "100-then-unit", "1000-then-unit", "4-per-byte", "13-per-4-bytes", "260-then-byte") {
+		case "100-then-unit":
+			return append(make([]int, 100), 32)
+		case "1000-then-unit":
+			return append(make([]int, 1000), 32)
+		case "4-per-byte":
+			return []int{0, 0, 0, 0, 1}
+		case "13-per-4-bytes":
+			return append(make([]int, 13), 4)
+		}
+		return append(make([]int, 260), 1)
 	case "full":
 		return nil
 	case "bytes":
@@ -240,7 +264,7 @@ func c19Chunks(t *rapid.T) []int {
 
 func TestVerif_C19_Sign(t *testing.T) {
 	rec := stats.Get("C19", "sign")
-	rec.Rule("rapid: SignHashed under a scripted reader: stream = 0..4 candidates that must be rejected (k>=n, k=0, r=0, r+k=n, s=0 by construction) + acceptable + trailing; reads chunked (full, byte-wise, mixed sizes incl. up to 3 consecutive empty successful reads); first failure at a drawn byte offset (anywhere in 0..len, weighted to the inside of each candidate and to candidate boundaries) with io.EOF / io.ErrUnexpectedEOF / a custom error / EAGAIN / EINTR / a PathError / a wrapped error whose Temporary() is true / a deadline error, alone or together with the final chunk, the source either staying failed or RECOVERING after having reported the error once; or no failure. One call in four installs the scripted source as the process-wide crypto/rand.Reader and passes that variable. Oracle (ReadFull model): failure before the last needed byte -> err != nil, r = s = nil, no panic; otherwise success equal to the reference signature and no byte consumed beyond the accepted candidate. Non-trivial: failure strictly inside a candidate, or after >= 1 rejected candidate, or chunked reads; distinct by (stream, failAt, err, chunks).")
+	rec.Rule("rapid: SignHashed under a scripted reader: stream = 0..4 candidates that must be rejected (k>=n, k=0, r=0, r+k=n, s=0 by construction) + acceptable + trailing; reads chunked (full, byte-wise, mixed sizes incl. up to 3 consecutive empty successful reads, or long runs of 100..1000 empty reads before data); first failure at a drawn byte offset (anywhere in 0..len, weighted to the inside of each candidate and to candidate boundaries) with io.EOF / io.ErrUnexpectedEOF / a custom error / EAGAIN / EINTR / a PathError / a wrapped error whose Temporary() is true / a deadline error / errors that look like success when inspected (errno 0 bare or wrapped, an empty message, a nil-pointer error value), alone or together with the final chunk, the source either staying failed or RECOVERING after having reported the error once; or no failure. One call in four installs the scripted source as the process-wide crypto/rand.Reader and passes that variable. Oracle (ReadFull model): failure before the last needed byte -> err != nil, r = s = nil, no panic; otherwise success equal to the reference signature and no byte consumed beyond the accepted candidate. Non-trivial: failure strictly inside a candidate, or after >= 1 rejected candidate, or chunked reads; distinct by (stream, failAt, err, chunks).")
 	t.Cleanup(stats.FlushAll)
 	rapid.Check(t, func(t *rapid.T) {
 		foreignCalls(t, rec, "foreign") // state left behind by other entry points must not matter
